@@ -42,29 +42,27 @@ Proof.
 Qed.
 
 (** * Clearing the readers of a reference *)
-Lemma fold_clear_no_rg_gone l : forall st,
+Lemma fold_clear_reader_gone l : forall st,
   Quiet st ->
-  let st' := fold_left clear_no_rg l st in
+  let st' := fold_left clear_reader l st in
   Quiet st' /\ Shrinks st st' /\ forall j, In j l -> ~ has st' j.
 Proof.
   induction l as [|i l IH]; intros st Q; simpl.
   - split; [exact Q|]. split; [apply Shrinks_refl|]. intros j [].
-  - set (st1 := clear_no_rg st i).
-    assert (Q1 : Quiet st1) by (now apply Quiet_clear_no_rg).
-    pose proof (clear_no_rg_Shrinks st i) as S1. fold st1 in S1.
+  - set (st1 := clear_reader st i).
+    assert (Q1 : Quiet st1) by (now apply Quiet_clear_reader).
+    pose proof (clear_reader_Shrinks st i) as S1. fold st1 in S1.
     destruct (IH st1 Q1) as (Q' & S' & H'). split; [exact Q'|]. split; [eapply Shrinks_trans; eauto|].
     intros j [<-|Hin]; [|now apply H'].
     intros Hh. apply (sh_has _ _ S') in Hh.
-    unfold st1, clear_no_rg in Hh.
     destruct (mem_node (node_of i) (s_nodes st)) eqn:Hm.
-    + fold (clear_no_rg st i) in Hh.
-      assert (Hc := clear_no_rg_Cleared st i Hm).
-      unfold clear_no_rg in Hc. rewrite Hm in Hc.
+    + assert (Hc := clear_reader_Cleared st i Hm). fold st1 in Hc.
       unfold has in Hh. rewrite (cl_data _ _ _ Hc) in Hh.
       assert (mem_node (node_of i) (descs_with st (node_of i)) = true) as E
           by (apply mem_node_In, descs_with_self).
       rewrite E in Hh. now apply Hh.
-    + destruct Q as ((_ & C & _) & _). apply mem_node_false in Hm. apply Hm. now apply (cv_node _ C).
+    + unfold st1, clear_reader, clear_with_descs in Hh. rewrite Hm in Hh.
+      destruct Q as ((_ & C & _) & _). apply mem_node_false in Hm. apply Hm. now apply (cv_node _ C).
 Qed.
 
 Lemma in_rg_readers st r j : In j (rg_readers st r) <-> In (r, j) (s_redges st).
@@ -82,8 +80,8 @@ Lemma Quiet_clear_attr_referrers st r :
 Proof.
   intros Q. unfold clear_attr_referrers.
   set (readers := rg_readers st r).
-  destruct (fold_clear_no_rg_gone readers st Q) as (Q1 & S1 & Hgone).
-  set (st1 := fold_left clear_no_rg readers st) in *.
+  destruct (fold_clear_reader_gone readers st Q) as (Q1 & S1 & Hgone).
+  set (st1 := fold_left clear_reader readers st) in *.
   set (st' := upd_rgraph st1 (filter (fun i => negb (mem_item i readers)) (s_rnodes st1))
                 (filter (fun e => negb (Nat.eqb (fst e) r) && negb (mem_item (snd e) readers)) (s_redges st1))).
   assert (Hre : forall e, In e (s_redges st') <->
